@@ -886,6 +886,46 @@ fn exec_res(line: &str, t: &[&str], rec: &mut Recorder) {
         }
         rec.stat(&format!("sends.{}", match n_sends { 0 => "0", 1..=3 => "1-3", 4..=9 => "4-9", 10..=29 => "10-29", _ => "30+" }));
     }
+    // which paths of the recursor the case went through (from the trace only)
+    let ns_targets: BTreeSet<usize> = Truth::responses(&case)
+        .iter()
+        .flat_map(|(_, _, r)| r.all().filter_map(|x| if let RD::N(t) = x.data { Some(t) } else { None }).collect::<Vec<_>>())
+        .collect();
+    for (k, o) in outs.iter().enumerate() {
+        let (qn, qt) = case.queries[k];
+        let glueless = o.events.iter().any(|e| match e {
+            Event::Send(_, n, t) => (*t == 1 || *t == 28) && !(case.names[qn] == *n && qt == *t) && ns_targets.iter().any(|x| case.names[*x] == *n),
+            _ => false,
+        });
+        if glueless {
+            rec.stat("path.glueless-ns-address-lookup");
+        }
+        let distinct_names: BTreeSet<String> = o
+            .events
+            .iter()
+            .filter_map(|e| match e {
+                Event::Send(_, n, t) if *t == qt && qt != 2 => Some(name_tok(n)),
+                _ => None,
+            })
+            .collect();
+        if distinct_names.len() > 1 {
+            rec.stat("path.cname-chase-upstream");
+        }
+        if o.events.is_empty() && k > 0 {
+            rec.stat(if o.class == "ok" { "path.served-from-cache.positive" } else { "path.served-from-cache.negative-or-error" });
+        }
+        if o.events.iter().any(|e| matches!(e, Event::Dead(_))) {
+            rec.stat("path.unreachable-server-tried");
+        }
+        let groups: BTreeSet<usize> = o.events.iter().filter_map(|e| match e { Event::Send(ip, _, _) => case.group_of(ip), _ => None }).collect();
+        rec.stat(&format!("groups-contacted.{}", groups.len().min(6)));
+    }
+    if !case.deny_srv.is_empty() {
+        rec.stat("filters.name-server-filter-set");
+    }
+    if !case.deny_ans.is_empty() {
+        rec.stat("filters.answer-filter-set");
+    }
     // non-trivial: the recursor had to follow at least one delegation and the internet contains at least one
     // record that is out of bailiwick for the server saying it, or a cycle / lame delegation made it fail
     let hostile = Truth::responses(&case).iter().any(|(g, _, r)| r.all().any(|x| !truth.in_some_zone(&case, *g, x.name)));
